@@ -37,7 +37,8 @@ Fail(c) == [c EXCEPT !.err = TRUE]
 Top(c) == c.queue[Len(c.queue)]
 SetTop(c, nd) == [c EXCEPT !.queue[Len(c.queue)] = nd]
 \* gf_split: the label without its function, the function as edge (one operator for all readers)
-GfSplitLabel(lab, sep) == Format([Parse(lab, sep) EXCEPT !.gf = DefaultEdge], FALSE, FALSE)
+\* (the category stays even when it is spelled like the default label: "EMPTY-HD" gives "EMPTY", edge "HD")
+GfSplitLabel(lab, sep) == Format([Parse(lab, sep) EXCEPT !.gf = DefaultEdge], TRUE, FALSE)
 GfSplitEdge(lab, sep)  == Parse(lab, sep).gf
 
 RdStep(c, t, o, sep) ==      \* o = set of reader options
